@@ -11,8 +11,8 @@ def d2(mod, r=0):
     return [[c0,c1,-1,x] for c0 in range(NC) for c1 in range(NC) for x in range(NX) if (c0*13+c1*7+x*3) % mod == r]
 def d3(mod):
     return [[c0,c1,c2,x] for c0 in range(NC) for c1 in range(NC) for c2 in range(NC) for x in range(NX) if (c0*131+c1*31+c2*7+x*3) % mod == 0]
-quick = d1 + d2(24)
-thorough = d1 + d2(2) + d3(400)
+quick = d1 + d2(60)
+thorough = d1 + d2(4) + d3(800)
 CARVES = ["C07-exit-in-argument-position", "C07-conditional-ignores-exit", "C07-binding-form-takes-exit-as-value",
   "C07-mapcar-continues-after-exit", "C07-tagbody-drops-return", "C07-tagbody-evaluates-symbol-tags", "C07-go-backward-lost",
   "C07-go-outward-lost", "C07-do-drops-named-return", "C07-body-continues-after-exit", "C07-go-to-missing-tag-not-detected",
@@ -33,7 +33,7 @@ NOTE = ("Program = (block b0 pre C0[C1[C2[EXIT]]] post): up to three nested carr
   "values, final values of the counters, condition class of an unhandled error (must appear in the condition's hierarchy), "
   "no exit marker escaping as a value, no Go fault, and in the engine that no sync.Mutex is held at the end (vrt.HeldLocks; an "
   "unlock of an unlocked mutex ends the path as badunlock). Stub: slip.ObjectString -> constant (error/stack text only). "
-  "An evaluation budget (Scope.InterruptCheck, 3000 function evaluations) turns wrong non-termination into a panic. "
+  "An evaluation budget (Scope.InterruptCheck, 400 function evaluations) turns wrong non-termination into a panic. "
   "Not covered: with-open-file (the engine has no file system), handler-case/restarts, exits out of method bodies, depth >= 4. "
   "Carve-outs: region predicates over the positions at which the reference run saw an exit leave a sub-form (form/position/kind)."
   ) % (NC, NX)
@@ -41,8 +41,8 @@ spec = [
  {"id": "C07.exit", "property": "C07", "pkg": "pkg/cl", "entry": "VerifC07Exit", "extra_files": ["zz_verif_c01.go"],
   "cases": {"quick": quick, "thorough": thorough}, "reach": ["compared", "agreed", "agreed-error"],
   "max_depth": 400, "max_steps": 20000000, "solver_timeout_ms": 10000, "carves": [], "overrides": OVR,
-  "note": NOTE + " Bounds: quick = every carrier x every exit (%d) + 1/24 of the %d two-carrier nests (%d); thorough = half of the two-carrier "
-          "nests + 1/400 of the %d three-carrier nests." % (len(d1), NC*NC*NX, len(d2(24)), NC*NC*NC*NX),
+  "note": NOTE + " Bounds: quick = every carrier x every exit (%d) + 1/60 of the %d two-carrier nests (%d); thorough = a quarter of the two-carrier "
+          "nests + 1/800 of the %d three-carrier nests." % (len(d1), NC*NC*NX, len(d2(60)), NC*NC*NC*NX),
   "assumptions": ["dotimes counts -1..2, do/do* <= 2 iterations, <= 8 backward jumps, <= 12 function calls per program"]},
  {"id": "C07.findings", "property": "C07", "pkg": "pkg/cl", "entry": "VerifC07Exit", "extra_files": ["zz_verif_c01.go"],
   "cases": {"quick": findings, "thorough": findings}, "reach": ["compared"],
